@@ -46,9 +46,11 @@ int cmd_c08(int argc, char **argv) {
     fputs("],\"ay\":[", OUT); for (int s = 0; s < 9; s++) { if (s) fputc(',', OUT); pv(AugerYield(Z, s, &e), &e); }
     fputs("],", OUT); emit_row("ck", CosKronTransProb, Z, 1, 14); fputc(',', OUT); emit_row("RR", RadRate, Z, -386, 6); fputc(',', OUT); emit_row("AR", AugerRate, Z, 0, 995);
     fputs(",\"at\":[", OUT);
-    double el[80]; int ne = 0; el[ne++] = 0.0; el[ne++] = -1.0;
-    for (int s = 0; s < 9; s++) { double ed = EdgeEnergy(Z, s, NULL); if (ed > 0) { el[ne++] = ed * (1 - 1e-6); el[ne++] = ed * (1 + 1e-6); if (thorough) { el[ne++] = ed * (1 - 1e-2); el[ne++] = ed * (1 + 1e-2); } } }
+    double el[120]; int ne = 0; el[ne++] = 0.0; el[ne++] = -1.0;
+    for (int s = 0; s < 9; s++) { double ed = EdgeEnergy(Z, s, NULL); if (ed > 0) { el[ne++] = ed; el[ne++] = ed * (1 - 1e-6); el[ne++] = ed * (1 + 1e-6); if (thorough) { el[ne++] = ed * (1 - 1e-2); el[ne++] = ed * (1 + 1e-2); } } }
     { double lo = 0.1, hi = 200.0; int nlog = thorough ? 12 : 6; for (int i = 0; i <= nlog; i++) el[ne++] = lo * pow(hi / lo, (double)i / nlog); el[ne++] = 1500.0; }
+    /* the top of the sub-shell tables themselves (K and M5), read from the library's own abscissae: just inside, just outside, and the stretch between the log grid and the top */
+    if (Z >= 1 && Z <= ZMAX) for (int s = 0; s < 9; s += 8) if (NE_Photo_Partial_Kissel[Z][s] > 1) { double top = exp(E_Photo_Partial_Kissel[Z][s][NE_Photo_Partial_Kissel[Z][s] - 1]); el[ne++] = top * (1 - 1e-6); el[ne++] = top * (1 + 1e-3); if (top > 200.0) { el[ne++] = 0.5 * (200.0 + top); el[ne++] = 200.0 + 0.9 * (top - 200.0); } }
     for (int i = 0; i < ne; i++) {
       double E = el[i];
       fprintf(OUT, "%s{\"E\":", i ? "," : ""); jd(E);
